@@ -239,7 +239,9 @@ impl<'a> SegRunner<'a> {
                 got.sort();
                 self.out.eval("C03");
                 if take < 0 {
-                    if got != expected { self.fail(&["C03"], &format!("query [{},{}] at time {}", c, d, t), &format!("{:?}", expected), &format!("{:?}", got)); }
+                    // (after a clear the tree must answer like a new one: a wrong answer then is C12's as well)
+                    let cleared = self.ops.iter().any(|o| o == "clear");
+                    if got != expected { self.fail(if cleared { &["C03", "C12"] } else { &["C03"] }, &format!("query [{},{}] at time {}", c, d, t), &format!("{:?}", expected), &format!("{:?}", got)); }
                 } else {
                     let mut dedup = got.clone(); dedup.dedup();
                     let want = (take as usize).min(expected.len());
